@@ -1294,6 +1294,7 @@ class C08(SimpleSpec):
     def gen_cases(self, rng, n):
         r2 = __import__("random").Random(rng.random())
         return ([gen.gen_audit_as_overlap_case(r2, f"o{i}") for i in range(max(8, n // 10))] +
+                [gen.gen_audit_as_git_case(r2, f"q{i}") for i in range(max(6, n // 15))] +
                 [gen.gen_audit_as_case(rng, f"a{i}") for i in range(n)])
 
     def model_expr(self, o):
@@ -1947,7 +1948,10 @@ class C15(SimpleSpec):
         out = []
         for i in range(n):
             c = gen.gen_validate_case(rng, f"v{i}")
-            if i % 3 == 2 and not c.get("faults"):
+            if i % 3 == 1 and not c.get("faults"):
+                # an implication cycle first reached from a criterion outside it (local or peer table)
+                c = gen.boost_cycle_behind_entry(rng, c)
+            elif i % 3 == 2 and not c.get("faults"):
                 # a peer entry mixing known and unknown criteria (unlocked): stripped, not crashed on, not counted
                 c = gen.boost_peer_mixed_unknown(rng, c)
             out.append(c)
@@ -2634,7 +2638,7 @@ class C10(HistorySpec):
     pid = "C10"
     oracle_fn = staticmethod(hist.oracle_c10)
     coq_files = ["Properties/C10.v"]
-    theorems = ["C10_update_preserves_vetting", "C10_certify_preserves_vetting", "C10_trust_preserves_vetting", "C10_import_preserves_vetting", "C10_prune_preserves", "C10_regenerate_imports_preserves", "C10_certify_cleanup_preserves",
+    theorems = ["C10_update_preserves_vetting", "C10_certify_preserves_vetting", "C10_certify_with_fold_preserves_vetting", "C10_trust_preserves_vetting", "C10_import_preserves_vetting", "C10_prune_preserves", "C10_regenerate_imports_preserves", "C10_certify_cleanup_preserves",
                 "C10_trust_cleanup_preserves", "C10_import_cleanup_preserves", "C10_init_and_regenerate_certify",
                 "C10_regenerate_search_never_fails", "C10_prune_keeps_required_entries", "C10_failing_crate_keeps_stored_imports"]
     level_text = ("END-TO-END theorems: vets s -> vets (k s) for k = prune with all 8 flag combinations, regenerate imports, the "
